@@ -43,14 +43,14 @@ func goid() int64 {
 }
 
 type caller struct {
-	id      int
-	gated   bool
-	arrive  chan int
-	release chan struct{}
-	done    chan struct{}
-	obs     []int
-	fin     int
-	pm      string
+	id       int
+	gated    bool
+	arrive   chan int
+	release  chan struct{}
+	done     chan struct{}
+	obs      []int
+	fin      int
+	pm       string
 	finished bool
 }
 
